@@ -122,6 +122,10 @@ class Step:
             return self.ev(t[2], env) if self.ev(t[1], env) else self.ev(t[3], env)
         if op in ABS and len(t) == 2:
             return abs(self.ev(t[1], env))
+        if op in ('std::sqrt', 'sqrt', 'std::sqrtf', 'sqrtf') and len(t) == 2:
+            import math
+            v = self.ev(t[1], env)
+            return math.sqrt(v) if v >= 0 else float('nan')
         if op in QUOT and len(t) == 3:
             return _div(self.ev(t[1], env), self.ev(t[2], env))
         if op in REDUCE and len(t) == 2:
